@@ -54,6 +54,7 @@ Definition net_shape (n : net) : bool :=
       else false
   | OpConcat =>
       if forallb w1 (nargs n) then
+        if (if merge then is_kind_out (ndest n) else false) then true else   (* straight into the Output vector *)
         let us := users (ndest n) in
         if Nat.eqb (length us) 0 then false
         else forallb (fun u => if is_port (nop u) then true
